@@ -13,7 +13,7 @@ RULE = ("all well-formed sequences (<=2 notes over the full lattice, 3 (4 thorou
         "EVERY history of depth <= 2 over 25 legal history operations (queries, pads, scaling, edits through the generators, "
         "concatenation that aliases message objects) from 3 seeds x 2 builds, expectation computed from the content read "
         "back just before the operation; non-trivial = the operation changes something")
-SCALE = ('16-120 notes (long); ladder 33..1025 notes x padding distances 769..70001, two long notes among many short ones; the end of one long note at EVERY tick of a 270-tick stretch of a 42-note piece (both channel orders)')
+SCALE = ('16-120 notes (long); ladder 33..1025 notes x padding distances 769..70001, two long notes among many short ones; the end of one long note at EVERY tick of a 270-tick stretch of a 42-note piece (both channel orders); control and program changes; notes on one channel beside events on another, re-assigned to the notes own channel; rejected scale(1.5) inside histories; numpy integer ticks every 5th case')
 ASSUMPTIONS = ["scale is exercised with quantise_afterwards=False (the pure operation)",
                "cut-off: the total duration is not part of the statement and is not compared"]
 REQUIRED_FLAGS = ["after_history", "aliased_messages_inside_sequence", "pad_extends", "pad_noop_below", "cutoff_shortens", "cutoff_equal_length_kept", "scale_gt1",
